@@ -18,6 +18,7 @@ import numpy as np
 from common import run_tlc, tlc_must_pass, printed_json, validate_events, Infra, isolated, isolated_many
 from lib import Lib, Buf, FFT64, MASK_NONE, MASK_GENERIC
 import progs
+import vecops
 from props import c16
 from props.c12 import to_events
 
@@ -162,6 +163,118 @@ def relevant(c):
     if f == "cplx_to_tnx32_simple":
         return (f, c["m"], c["div"], OVH[c["ovh"]])
     return (f, c["m"])
+
+
+def drive_placement(rec, quick):
+    """The same call with its operands at particular places relative to each other: the result immediately before or after a source,
+    result and source (or the two sources) exactly 2^31 + 64, 2^32 and 2^35 bytes apart in either order.  A sparse mapping holds the
+    operands; the result bytes must be those of the call on ordinary buffers, and the sources must keep their bytes."""
+    import ctypes
+    from props.c08 import Sparse
+    from lib import NTT120
+    rng = random.Random(rec.seed * 101 + 9)
+    L = Lib.get()
+    sp = Sparse(40 << 30)
+    if sp.addr is None:
+        rec.notes.append("operand placement: a sparse mapping of 40 GiB was refused by the system (not a verdict)")
+        rec.data["ok"] = 0
+        return
+    n = 64
+    modf = L.module(n, FFT64, MASK_NONE)
+    modg = L.module(n, FFT64, MASK_GENERIC)
+    modn = L.module(n, NTT120, MASK_NONE)
+    L.set_cpu_mask(MASK_NONE)
+    g = np.random.default_rng(rec.seed + 3)
+    ok = 0
+    X0 = 1 << 30                                       # offsets inside the mapping
+
+    def ops():
+        """(label, result bytes, [source byte strings], call(R, srcs...))"""
+        a = g.integers(-(1 << 30), 1 << 30, 3 * n, dtype=np.int64)
+        b = g.integers(-(1 << 30), 1 << 30, 3 * n, dtype=np.int64)
+        out = []
+        for mk, mod in (("fft64", modf), ("fft64-generic", modg), ("ntt120", modn)):
+            for op in ("add", "sub", "copy", "negate", "rotate", "automorphism"):
+                out.append(("vec_znx_%s[%s]" % (op, mk), 8 * 3 * n, [a.tobytes(), b.tobytes()],
+                            lambda R, A, B, op=op, mod=mod: vecops.call_op(L, mod, op, 5, R, 3, n, A, 3, n, B, 3, n)))
+            nbd = 8 * n if mk != "ntt120" else 32 * n
+            nbg = 8 * n if mk != "ntt120" else 16 * n
+            out.append(("vec_znx_dft[%s]" % mk, nbd * 3, [a.tobytes()], lambda R, A, mod=mod: L.call("vec_znx_dft", mod, R, 3, A, 3, n)))
+            d = Buf(nbd * 3, fill=0)
+            A0 = Buf(8 * 3 * n)
+            A0.i64[:] = a
+            L.call("vec_znx_dft", mod, d, 3, A0, 3, n)
+            tmp = Buf(L.call("vec_znx_idft_tmp_bytes", mod), fill=0x55)
+            out.append(("vec_znx_idft[%s]" % mk, nbg * 3, [d.u8.tobytes()],
+                        lambda R, D, mod=mod, tmp=tmp: L.call("vec_znx_idft", mod, R, 3, D, 3, tmp)))
+        pp = Buf(L.call("bytes_of_svp_ppol", modf), fill=0)
+        s1 = Buf(8 * n)
+        s1.i64[:] = g.integers(-8, 9, n, dtype=np.int64)
+        L.call("svp_prepare", modf, pp, s1)
+        out.append(("svp_apply_dft[fft64]", 8 * n * 3, [a.tobytes()], lambda R, A: L.call("svp_apply_dft", modf, R, 3, pp, A, 3, n)))
+        for nm in ("znx_rotate_i64", "znx_automorphism_i64", "znx_mul_xp_minus_one"):
+            out.append((nm, 8 * n, [a[:n].tobytes()], lambda R, A, nm=nm: L.call(nm, n, 7, R, A)))
+        fa = g.integers(-1000, 1001, 2 * n).astype(np.float64)
+        fb = g.integers(-1000, 1001, 2 * n).astype(np.float64)
+        for nm, ctor in (("reim_fftvec_mul", "new_reim_fftvec_mul_precomp"), ("cplx_fftvec_mul", "new_cplx_fftvec_mul_precomp")):
+            t = L.fn(ctor, "p w")(n)
+            out.append((nm, 16 * n, [fa.tobytes(), fb.tobytes()], lambda R, A, B, nm=nm, t=t: L.fn(nm, "v pppp")(t, R, A, B)))
+        import q120
+        qc = q120.Q(L)
+        ell = 9
+        qx = g.integers(0, 1 << 63, 4 * ell, dtype=np.uint64)
+        qy = g.integers(0, 1 << 63, 4 * ell, dtype=np.uint64)
+        for impl in ("ref", "avx2"):
+            out.append(("q120_vec_mat1col_product_bbb_" + impl, 32, [qx.tobytes(), qy.tobytes()],
+                        lambda R, X, Y, impl=impl: L.fn("q120_vec_mat1col_product_bbb_" + impl, "v puppp")(qc.prod_pre("bbb"), ell, R, X, Y)))
+        return out
+
+    def run_at(call, rbytes, srcs, raddr, saddrs):
+        sp.u8(raddr - sp.addr, rbytes)[:] = 0x6B
+        for sa, sb in zip(saddrs, srcs):
+            sp.u8(sa - sp.addr, len(sb))[:] = np.frombuffer(sb, dtype=np.uint8)
+        call(ctypes.c_void_p(raddr), *[ctypes.c_void_p(x) for x in saddrs])
+        res = sp.u8(raddr - sp.addr, rbytes).tobytes()
+        kept = all(sp.u8(sa - sp.addr, len(sb)).tobytes() == sb for sa, sb in zip(saddrs, srcs))
+        return res, kept
+
+    for (label, rbytes, srcs, call) in ops():
+        # reference: ordinary buffers
+        R = Buf(rbytes, fill=0x6B)
+        S = [Buf(len(x)) for x in srcs]
+        for bf, x in zip(S, srcs):
+            bf.u8[:] = np.frombuffer(x, dtype=np.uint8)
+        call(ctypes.c_void_p(R.addr), *[ctypes.c_void_p(x.addr) for x in S])
+        ref = R.u8.tobytes()
+        base = sp.addr + X0
+        s0 = len(srcs[0])
+        places = [("result immediately before the first source", base - rbytes, [base]),
+                  ("first source immediately before the result", base + s0, [base]),
+                  ("result 2^32 bytes above the first source", base + (1 << 32), [base]),
+                  ("result 2^32 bytes below the first source", base, [base + (1 << 32)]),
+                  ("result 2^35 bytes above the first source", base + (1 << 35), [base]),
+                  ("result 2^31 + 64 bytes above the first source", base + (1 << 31) + 64, [base])]
+        for what, raddr, saddrs in places:
+            if len(srcs) == 2:
+                # the second source: far from both, or exactly 2^31 + 64 / 2^32 bytes from the first one
+                saddrs = saddrs + [saddrs[0] + rng.choice([(1 << 31) + 64, 1 << 32, (3 << 30) + 4096])]
+                if abs(saddrs[1] - raddr) < max(rbytes, len(srcs[1])):
+                    saddrs[1] += 1 << 20
+            full = "%s: %s" % (label, what)
+            if not rec.progress(full):
+                continue
+            res, kept = run_at(call, rbytes, srcs, raddr, saddrs)
+            rec.case(("placement", label, what))
+            if res != ref:
+                rec.violation(full + ": the result differs from the result of the same call on ordinary buffers", {"call": label, "placement": what})
+            elif not kept:
+                rec.violation(full + ": a source operand was modified", {"call": label, "placement": what})
+            else:
+                ok += 1
+    for m_ in (modf, modg, modn):
+        L.delete_module(m_)
+    sp.close()
+    rec.data["ok"] = ok
 
 
 def drive_lifetimes(rec, quick):
@@ -529,6 +642,9 @@ def run(chk, replay=None):
     for b in bad[:10]:
         chk.violation("history replay: event %d %s: the table used does not match the call, or the result differs from an "
                       "earlier identical call" % (b, events[b]), {"event": events[b], "slice": events[max(0, b - 4):b + 2]})
+    dp = isolated(chk, "operands at particular places relative to each other", drive_placement, (quick,), timeout=1200)
+    chk.traces += dp["ok"] if dp else 0
+    chk.cov["placement_calls_identical"] = dp["ok"] if dp else 0
     dl = isolated(chk, "lifetimes of tables and modules", drive_lifetimes, (quick,), timeout=1200)
     lev = dl["events"] if dl else []
     badl, resl = validate_events("LifecycleTrace", "LifecycleTrace.cfg", [{k: v for k, v in e.items() if not k.startswith("_")} for e in lev],
